@@ -295,3 +295,14 @@ package k8s
 //@     assert ports: wfPS(ports) && inRange(ports) && noNames(ports) && psApart(res, ports) && wfCS(res) && !res.AllowAll && freshSep(res) && allKept()
 //@     assert nums: forall n int :: {iset(ports.Ports)[n]} iset(ports.Ports)[n] == rulePortMatch(rulePorts[rangeindex], dst, protocol, n)
 //@     assert proto: protocol == rpProto(rulePorts[rangeindex]) && isProto(protocol) && 0 <= rangeindex && rangeindex < len(rulePorts)
+
+// ---------------------------------------------------------------------------------------------
+// ipBlock peers: the block of a rule peer is its CIDR minus every except (C01, C14)
+// ---------------------------------------------------------------------------------------------
+
+//@ func (*NetworkPolicy).parseNetpolCIDR
+//@   requires np != nil && np.NetworkPolicy != nil
+//@   modifies *
+//@   ensures [C01,C14] block: res1 == nil ==> (res0 != nil && (forall a int :: {ipset(res0)[a]} ipset(res0)[a] ==
+//@         (cidrSet(cidr)[a] && !(exists k int :: 0 <= k && k < len(except) && cidrSet(except[k])[a]))))
+//@   ensures [C01] failed: res1 != nil ==> res0 == nil
